@@ -350,6 +350,21 @@ impl Model for ReceiverModel {
             return v;
         }
         let mut panics = vec![];
+        // 0. credit that is due is sent without anybody having to poll the connection by force: at (strict) quiescence a forced
+        //    poll must not produce a WINDOW_UPDATE - otherwise the handle operation that made it due did not wake the connection
+        t.drive(300);
+        t.catch_up();
+        {
+            let before = t.subject_frames().len();
+            t.sh.lock().unwrap().chooser.recording = false;
+            t.conn_flag.wake_by_ref_pub();
+            t.drive(50);
+            t.catch_up();
+            let new: Vec<String> = t.subject_frames()[before..].iter().filter(|f| f.raw.ty == wf::ty::WINDOW_UPDATE).map(|f| format!("WINDOW_UPDATE(stream {}, {})", f.raw.stream(), u32::from_be_bytes([f.raw.payload[0] & 0x7f, f.raw.payload[1], f.raw.payload[2], f.raw.payload[3]]))).collect();
+            if !new.is_empty() {
+                v.push(("C03.credit-not-sent-until-polled".to_string(), if new.iter().any(|x| x.contains("stream 0,")) { "connection".into() } else { "stream".into() }, format!("everything was quiescent and nobody had woken the connection task, yet a forced poll made it send {:?}: the operation that made this credit due did not wake the connection, the peer would have waited for it indefinitely", new)));
+            }
+        }
         // the peer acknowledges whatever SETTINGS are outstanding, everything quiesces
         t.drive(300);
         t.peer_ack_settings();
